@@ -79,8 +79,9 @@ F02(r) ==
                          \/ (v.cout = "ok" /\ (v.dump # b.dump \/ v.table # b.table))}
      \cup
      \* a source that compiles under one option subset compiles under all
+     \* (not near the capacity limits: there, rejecting what ReduceNesting made too wide is C09's "rejected or correct")
      {f \in {<<"C02", r.id, vi, 0, "compile">> : vi \in Idx(r.vars)} :
-        r.vars[f[3]].cout # "ok" /\ \E wi \in Idx(r.vars) : r.vars[wi].cout = "ok"}
+        NodeCount(r.tree) < 100 /\ r.vars[f[3]].cout # "ok" /\ \E wi \in Idx(r.vars) : r.vars[wi].cout = "ok"}
 N02(r) ==
   LET okv == {vi \in Idx(r.vars) : r.vars[vi].cout = "ok"}
       dom == {ei \in Idx(r.envs) : VarsOf(r.tree) \subseteq DOMAIN r.envs[ei] /\ ~OutOfDomain(Den(r.tree, r.envs[ei]))}
